@@ -782,7 +782,7 @@ def Expr.nfInv : Expr → Prop
   | .app n x g _ b a => n.nfInv ∧ x.nfInv ∧ n.before = [] ∧
       ((Layout.fromGap g).onNewline = true → leadE x.before = 0) ∧ Alt b ∧ Alt a
   -- `with` / `assert`: outside the spacing theorem so far (`File.basic`)
-  | .wth .. => False
+  | .wth env body awc _ asc b a => env.nfInv ∧ env.before = [] ∧ awc = [] ∧ body.nfInv ∧ Alt b ∧ Alt a
   | .asrt .. => False
   | .sel e _ _ ab b a => e.nfInv ∧ e.before = [] ∧ ab = [] ∧ Alt b ∧ Alt a
   | .selOr e _ _ ab d _ db b a =>
@@ -809,7 +809,7 @@ def Expr.inlineClean : Expr → Prop
   | .binding _ v _ _ _ => v.inlineClean
   | .paren v lg _ _ _ _ _ => ((Layout.fromGap lg).onNewline = false → v.before = []) ∧ v.inlineClean
   | .app n x g _ _ _ => ((Layout.fromGap g).onNewline = false → x.before = []) ∧ n.inlineClean ∧ x.inlineClean
-  | .wth .. => False
+  | .wth env body _ _ _ _ _ => env.inlineClean ∧ body.inlineClean
   | .asrt .. => False
   | .sel e _ _ _ _ _ => e.inlineClean
   | .selOr e _ _ _ d _ _ _ _ => e.inlineClean ∧ d.inlineClean
@@ -983,6 +983,75 @@ theorem sepOk_replicate_nl (k : Nat) (hk1 : 1 ≤ k) (hk2 : k ≤ 2) (n : Nat) (
   | 2, _, _ => exact sepOk_nlnl n x hx
 
 theorem colon_ne_semi : Lex.tok [':'] ≠ Lex.tok [';'] := by intro h; injection h with h; cases h
+
+/-- the separator between `with` and its environment, without comments -/
+theorem withSep_cases (g : Text) (i : Nat) :
+    formatInterstitialTriviaWithSeparator [] (withLayout [] g) i (includeIndent := false) (dropBlankIfItems := false) =
+      ([], if (Layout.fromGap g).onNewline then '\n' :: (if (Layout.fromGap g).blankLine then ['\n'] else []) else [' ']) := by
+  unfold withLayout formatInterstitialTriviaWithSeparator
+  simp only [formatInterstitialTrivia, formatInterstitialGo, separatorFromLayoutWithComments, List.isEmpty_nil, Bool.not_true,
+    Bool.false_eq_true, if_false, Bool.false_and, List.nil_append, endsWithNL_nil', triviaForcesNewline, List.any_nil, if_true]
+  cases (Layout.fromGap g).onNewline <;> simp
+
+/-- separator and body of a `with` without comments: one separator in normal form, then the body -/
+theorem withBody_summ {body : Expr} (hbd : body.ok) (hclb : closedT (body.effAfter false)) (i : Nat)
+    (ih : ∀ b, ExprS body false i b (summ (body.rebuildAP false i b))) :
+    ∃ w f, summ (withBodyPartP (withBodyForce [] [] body.before) body.absorbable (body.rebuildAP false i true)
+        (body.rebuildAP false i false) i) = .lexy w f true [] ∧ f ≠ semi ∧ sepOk w f = true := by
+  have hnf : withBodyForce [] [] body.before = false → body.before = [] := by
+    intro hf
+    unfold withBodyForce at hf
+    simp only [Bool.or_eq_false_iff] at hf
+    exact noLayoutOrComment_nil (ok_before hbd) hf.2
+  obtain ⟨lt, ft, tt, hst, hft, _, _, c1t, _, c3t, _⟩ := ih true
+  obtain ⟨lf, ff, tf, hsf, hff, hlf, _, c1f, _, c3f, _⟩ := ih false
+  have htt := c3t hclb
+  have htf := c3f hclb
+  subst htt; subst htf
+  unfold withBodyPartP
+  split
+  · rename_i hc
+    simp only [Bool.and_eq_true, Bool.not_eq_true'] at hc
+    have hbf := hnf hc.1
+    have hlt := c1t hbf
+    simp only [if_true] at hlt
+    subst hlt
+    unfold stripIndentPrefixP
+    split
+    · rename_i hcond
+      simp only [Bool.and_eq_true, bne_iff_ne, ne_eq] at hcond
+      rw [rebuildAP_indent_split hbd hbf, dropCharsP_ws_spaces i _ hcond.1]
+      refine ⟨[' '], ft, ?_, hft, sepOk_space _ hft⟩
+      rw [summ_cons, hst]; rfl
+    · rename_i hcond
+      have hi0 : i = 0 := by
+        by_cases hi : i = 0
+        · exact hi
+        · exfalso; apply hcond
+          rw [rebuildAP_indent_split hbd hbf]
+          simp only [Bool.and_eq_true, bne_iff_ne, ne_eq]
+          refine ⟨hi, ?_⟩
+          show startsWith (spaces i) (spaces i ++ concat (body.rebuildAP false i true)) = true
+          exact startsWith_append_self _ _
+      have hlf' := c1f hbf
+      simp only [Bool.false_eq_true, if_false, hi0] at hlf'
+      refine ⟨[' '], ff, ?_, hff, sepOk_space _ hff⟩
+      rw [summ_cons, hsf, hlf']; rfl
+  · split
+    · refine ⟨'\n' :: lf, ff, ?_, hff, sepOk_nl_vlead hlf ff hff⟩
+      rw [summ_cons, hsf]; rfl
+    · rename_i h1 h2
+      have hforce : withBodyForce [] [] body.before = false := by
+        cases hx : withBodyForce [] [] body.before with
+        | false => rfl
+        | true => exact absurd (by simp [hx]) h2
+      have hlt := c1t (hnf hforce)
+      simp only [if_true] at hlt
+      subst hlt
+      refine ⟨[' '], ft, ?_, hft, sepOk_space _ hft⟩
+      rw [summ_cons, hst]; rfl
+
+theorem kwWith_ne_semi : kwWith ≠ [';'] := by decide
 
 theorem summ_tok_cons (x : Text) {ps : List FP} {f : Lex} (h : summ ps = .lexy [] f true []) :
     summ (FP.tok x :: ps) = .lexy [] (.tok x) true [] := by
@@ -1347,7 +1416,6 @@ theorem rebuildAP_summ : (e : Expr) → e.ok → e.mlSafe → e.nfInv → e.inli
     obtain ⟨la, fx, has, hsep⟩ := harg
     simp only [summ_append, indentP_summ, hfns, has]
     simp only [Summ.comb, List.nil_append, List.append_nil, Bool.true_and, Bool.and_true, hsep]
-  | .wth .., _, _, hinv, _, _, _, _ => hinv.elim
   | .asrt .., _, _, hinv, _, _, _, _ => hinv.elim
   | .sel expr attrs g ab before after, hok, hml, hinv, hclean, na, i, b => by
     obtain ⟨he, hne, _, _, hb, ha⟩ := hok
@@ -1489,6 +1557,41 @@ theorem rebuildAP_summ : (e : Expr) → e.ok → e.mlSafe → e.nfInv → e.inli
         simp only [Summ.comb, List.nil_append, List.append_nil, Bool.true_and, Bool.and_true]
         rw [sepOk_replicate_nl ogl (by omega) hogl _ _ hopne, sepOk_replicate_nl rgl (by omega) hrgl _ _ hfr1]
         rfl
+  | .wth env body awc g asc before after, hok, hml, hinv, hclean, na, i, b => by
+    obtain ⟨hen, hbd, _, hasc, hb, ha⟩ := hok
+    obtain ⟨hem, hbm, henb, hbnb, hea, hba⟩ := hml
+    obtain ⟨hei, heb, hawc, hbi, habf, haaf⟩ := hinv
+    subst hawc; subst hasc
+    obtain ⟨hec, hbc⟩ := hclean
+    have hT := trailP_summ (ite_nil_ok na ha) (alt_ite_nil na haaf) i
+    have ihe := rebuildAP_summ env hen hem hei hec false
+    have hcle : closedT (env.effAfter false) := by rw [effAfter_notBinding henb, hea]; exact Or.inl rfl
+    have hclb : closedT (body.effAfter false) := by rw [effAfter_notBinding hbnb, hba]; exact Or.inl rfl
+    obtain ⟨w, fb, hsb, hfb, hwb⟩ := withBody_summ hbd hclb i (fun b' => rebuildAP_summ body hbd hbm hbi hbc false i b')
+    simp only [Expr.rebuildAP, addTriviaP]
+    rw [fmtP_lines hb.1, List.append_assoc (linesP i before)]
+    refine exprS_of_wrap (fc := .tok kwWith) hb habf ?_ (tok_ne_semi kwWith_ne_semi) hT.1 hT.2 (fun h => h) (fun h => h)
+    have hlay : withLayout [] g = Layout.fromGap g := by simp [withLayout, triviaForcesNewline]
+    rw [withSep_cases, hlay]
+    have hsuf : formatInlineCommentSuffix [] = [] := rfl
+    cases hon : (Layout.fromGap g).onNewline with
+    | false =>
+      obtain ⟨l, f, t, hs, hf, _, _, c1, _, c3, _⟩ := ihe i true
+      simp only [Bool.false_eq_true, if_false, summ_append, indentP_summ, summ_cons, summ_nil, summ1, hs, c3 hcle, c1 heb,
+        hsb, hsuf]
+      simp [Summ.comb, sepOk_nil, sepOk_space _ hf, hwb]
+    | true =>
+      obtain ⟨l, f, t, hs, hf, _, _, c1, _, c3, _⟩ := ihe ((Layout.fromGap g).indent.getD i) false
+      simp only [if_true, summ_append, indentP_summ, summ_cons, summ_nil, summ1, hs, c3 hcle, c1 heb, hsb, hsuf]
+      simp only [Summ.comb, List.nil_append, List.append_nil, Bool.true_and, Bool.and_true, Bool.false_eq_true, if_false,
+        sepOk_nil, hwb]
+      cases (Layout.fromGap g).blankLine
+      · simp only [Bool.false_eq_true, if_false]
+        rw [show (['\n'] ++ spaces ((Layout.fromGap g).indent.getD i)) = '\n' :: spaces ((Layout.fromGap g).indent.getD i) from rfl,
+          sepOk_nl _ f hf]
+      · simp only [if_true]
+        rw [show (['\n', '\n'] ++ spaces ((Layout.fromGap g).indent.getD i)) = '\n' :: '\n' :: spaces ((Layout.fromGap g).indent.getD i) from rfl,
+          sepOk_nlnl _ f hf]
 theorem joinNl_summ : (es : List Expr) → allOk es → allMlSafe es → allNfInv es → allInlineClean es → nonLastClosed es → es ≠ [] → ∀ (i : Nat),
     ∃ l f t, summ (joinP [.ws ['\n']] (rebuildAllP es i false)) = .lexy l f true t ∧ f ≠ semi ∧ VLead l ∧ TrailT t
   | [], _, _, _, _, _, h, _ => absurd rfl h
